@@ -55,6 +55,34 @@ Proof.
   rewrite H, take_drop, take_drop. reflexivity.
 Qed.
 
+(* the byte at an offset outside the range is found at its mapped offset in the edited file *)
+Lemma get_take n s p : p < n -> String.get p (take n s) = String.get p s.
+Proof.
+  revert s p; induction n as [|n IH]; intros s p H; [lia|].
+  destruct s as [|a r]; [reflexivity|]. destruct p as [|p]; [reflexivity|]. simpl. apply IH. lia.
+Qed.
+Lemma get_drop n s k : String.get k (drop n s) = String.get (n + k) s.
+Proof.
+  revert s; induction n as [|n IH]; intros s; [reflexivity|].
+  destruct s as [|a r]; simpl; [destruct k; reflexivity|]. apply IH.
+Qed.
+Lemma map_pos_same_byte src from to repl p q : from <= to -> to <= String.length src ->
+  map_pos from to (String.length repl) p = Some q ->
+  String.get q (apply_edit src from to repl) = String.get p src.
+Proof.
+  intros Hft Hto. unfold map_pos, apply_edit.
+  destruct (Nat.ltb_spec p from) as [Hlt|Hge].
+  - intros [= <-]. rewrite <- append_correct1 by (rewrite length_take; lia). apply get_take. exact Hlt.
+  - destruct (Nat.leb_spec to p) as [Hle|Hgt]; [|discriminate]. intros [= <-].
+    replace (from + String.length repl + (p - to)) with ((p - to) + String.length repl + String.length (take from src))
+      by (rewrite length_take; lia).
+    rewrite <- append_correct2. rewrite <- append_correct2. rewrite get_drop. f_equal. lia.
+Qed.
+Lemma map_pos_inside from to n p : from <= p -> p < to -> map_pos from to n p = None.
+Proof.
+  intros H1 H2. unfold map_pos. destruct (Nat.ltb_spec p from); [lia|]. destruct (Nat.leb_spec to p); [lia|reflexivity].
+Qed.
+
 (* ---- commentFormatting ---- *)
 Lemma cf_fix_shape t : has_prefix "//" t = true -> cf_fix t = "// " ++ drop 2 t.
 Proof. intros H. unfold cf_fix. rewrite replace_first_prefix by exact H. reflexivity. Qed.
